@@ -30,18 +30,21 @@ type Start struct {
 	RmIdx  bool     // remove the index files afterwards
 	Damage bool     // flip one byte inside a record of the oldest segment (reads of it fail)
 	Torn   bool     // three stray bytes after the last record of the newest segment (a torn append)
+	IdxCut bool     // the index file of the newest segment lost its last three bytes (not a whole number of items)
 }
 
 var Starts = []Start{
-	{"empty", nil, false, false, false},
-	{"single", []string{"P:0/1/u"}, false, false, false},
-	{"multi", []string{"P:0/1/u", "P:1/1/u", "P:0/1/u", "P:1/1/u", "P:0/1/u"}, false, false, false},
-	{"multi-noindex", []string{"P:0/1/u", "P:1/1/u", "P:0/1/u"}, true, false, false},
-	{"never-opened", nil, false, false, false}, // the directory exists but was never opened before the search
-	{"multi-damaged", []string{"P:0/1/u", "P:1/1/u", "P:0/1/u", "P:1/1/u", "P:0/1/u"}, false, true, false},
-	{"head-torn", []string{"P:0/1/u", "P:1/1/u", "P:0/1/u"}, false, false, true},
+	{"empty", nil, false, false, false, false},
+	{"single", []string{"P:0/1/u"}, false, false, false, false},
+	{"multi", []string{"P:0/1/u", "P:1/1/u", "P:0/1/u", "P:1/1/u", "P:0/1/u"}, false, false, false, false},
+	{"multi-noindex", []string{"P:0/1/u", "P:1/1/u", "P:0/1/u"}, true, false, false, false},
+	{"never-opened", nil, false, false, false, false}, // the directory exists but was never opened before the search
+	{"multi-damaged", []string{"P:0/1/u", "P:1/1/u", "P:0/1/u", "P:1/1/u", "P:0/1/u"}, false, true, false, false},
+	{"head-torn", []string{"P:0/1/u", "P:1/1/u", "P:0/1/u"}, false, false, true, false},
 	// the head segment [2 3 4] lost its middle message: offsets in it are not dense
-	{"head-gap", []string{"P:0/1/u", "P:1/1/u", "P:0/1/u,1/1/u,0/1/u", "D:3"}, false, false, false},
+	{"head-gap", []string{"P:0/1/u", "P:1/1/u", "P:0/1/u,1/1/u,0/1/u", "D:3"}, false, false, false, false},
+	// the head's index file is cut short: a lazily loading (read-only) handle only finds out at its first read
+	{"head-index-cut", []string{"P:0/1/u", "P:1/1/u", "P:0/1/u"}, false, false, false, true},
 }
 
 var cfg = drv.Cfg{Keys: true, Times: true, Rollover: 60, Ver: 2}
@@ -50,7 +53,8 @@ type sys struct {
 	damaged bool
 	w       *drv.World
 	h       [slots]klevdb.Log
-	mode    [slots]int // 0 closed, 1 rw, 2 ro
+	mode    [slots]int  // 0 closed, 1 rw, 2 ro
+	blk     [slots]bool // opened through OpenBlocking (part of the state: another code path answers Publish and Close)
 	logsAt  [slots]string
 	problem []string
 }
@@ -111,6 +115,14 @@ func build(root string, st Start, hist []string) (*sys, error) {
 				_ = f.Close()
 			}
 		}
+		if st.IdxCut {
+			s.damaged = true
+			idx, _ := filepath.Glob(filepath.Join(w.Dir, "*.index"))
+			sort.Strings(idx)
+			if b, err := os.ReadFile(idx[len(idx)-1]); err == nil && len(b) > 3 {
+				_ = os.WriteFile(idx[len(idx)-1], b[:len(b)-3], 0o600)
+			}
+		}
 		if st.Damage {
 			s.damaged = true
 			logs, _ := filepath.Glob(filepath.Join(w.Dir, "*.log"))
@@ -167,6 +179,8 @@ func (s *sys) letters() []string {
 		if s.mode[i] == 0 {
 			// slots are symmetric: only the lowest closed slot is opened
 			ls = append(ls, fmt.Sprintf("OpenRW:%d", i), fmt.Sprintf("OpenRO:%d", i), fmt.Sprintf("OpenMissing:%d", i), fmt.Sprintf("OpenRORec:%d", i), fmt.Sprintf("OpenROChk:%d", i))
+			// the blocking entry point is an Open too
+			ls = append(ls, fmt.Sprintf("OpenBRW:%d", i), fmt.Sprintf("OpenBRO:%d", i))
 			if s.headIndexExists() {
 				ls = append(ls, fmt.Sprintf("OpenFailRW:%d", i), fmt.Sprintf("OpenFailRO:%d", i))
 			}
@@ -244,12 +258,22 @@ func (s *sys) apply(letter string) {
 			_ = l.Close()
 		}
 		// either way the lock matrix is unchanged; later letters verify that the lock was released
-	case "OpenRW", "OpenRO":
+	case "OpenRW", "OpenRO", "OpenBRW", "OpenBRO":
 		o := cfg.Options()
-		ro := kind == "OpenRO"
+		ro := kind == "OpenRO" || kind == "OpenBRO"
 		o.Readonly = ro
 		logs := logsDigest(w.Dir)
-		l, err := klevdb.Open(w.Dir, o)
+		var l klevdb.Log
+		var err error
+		if strings.HasPrefix(kind, "OpenB") {
+			var bl klevdb.BlockingLog
+			bl, err = klevdb.OpenBlocking(w.Dir, o)
+			if err == nil {
+				l = bl
+			}
+		} else {
+			l, err = klevdb.Open(w.Dir, o)
+		}
 		if ro {
 			if d := logsDigest(w.Dir); d != logs {
 				s.failf("%s (read-only) changed a log file (open error: %v)", letter, err)
@@ -260,10 +284,13 @@ func (s *sys) apply(letter string) {
 		case err == nil && !allowed:
 			s.failf("%s succeeded while the directory is open (slots %v)", letter, s.mode)
 			_ = l.Close()
+		case err != nil && allowed && s.damaged && strings.Contains(err.Error(), "corrupted"):
+			// a damaged directory may refuse to open; what matters is that the refusal leaves no lock behind (probe below)
 		case err != nil && allowed:
 			s.failf("%s failed although nothing conflicting is open (slots %v): %v", letter, s.mode, err)
 		case err == nil:
 			s.h[i] = l
+			s.blk[i] = strings.HasPrefix(kind, "OpenB")
 			s.mode[i] = 1
 			if ro {
 				s.mode[i] = 2
@@ -291,7 +318,7 @@ func (s *sys) apply(letter string) {
 		if err := s.h[i].Close(); err != nil {
 			s.failf("Close of slot %d failed: %v", i, err)
 		}
-		s.h[i], s.mode[i] = nil, 0
+		s.h[i], s.mode[i], s.blk[i] = nil, 0, false
 	case "Read":
 		// read through the whole log, whatever it answers (reads of a damaged segment fail)
 		for off := int64(-2); off <= s.w.M.Next; off++ {
@@ -309,6 +336,15 @@ func (s *sys) apply(letter string) {
 			_, _, err = s.h[i].Delete(map[int64]struct{}{0: {}})
 			if !errors.Is(err, klevdb.ErrReadonly) {
 				s.failf("Delete on a read-only handle = %v, want ErrReadonly", err)
+			}
+			// also when there is nothing to publish or delete
+			for _, batch := range [][]klevdb.Message{nil, {}} {
+				if _, err := s.h[i].Publish(batch); !errors.Is(err, klevdb.ErrReadonly) {
+					s.failf("Publish of an empty batch on a read-only handle = %v, want ErrReadonly", err)
+				}
+			}
+			if _, _, err := s.h[i].Delete(map[int64]struct{}{}); !errors.Is(err, klevdb.ErrReadonly) {
+				s.failf("Delete of an empty set on a read-only handle = %v, want ErrReadonly", err)
 			}
 			if d := logsDigest(w.Dir); d != s.logsAt[i] {
 				s.failf("a log file changed during a read-only session")
@@ -366,7 +402,7 @@ func (s *sys) probeLock(letter string) {
 }
 
 func (s *sys) key() string {
-	return fmt.Sprintf("%v|%d|%s", s.mode, s.w.M.Next, drv.DirDigest(s.w.Dir, true))
+	return fmt.Sprintf("%v|%v|%d|%s", s.mode, s.blk, s.w.M.Next, drv.DirDigest(s.w.Dir, true))
 }
 
 type Result struct {
